@@ -144,6 +144,13 @@ func verifAttemptAt(re *Regexp, rt []rune, origin, p int) (*Match, error) {
 }
 
 func verifStart(n int, rtl bool) int {
+	if verifParam("fixstart") != "" {
+		// long-text units: the start offset is the default one (the text is what is explored)
+		if rtl {
+			return n
+		}
+		return 0
+	}
 	s := verifConcrete(verifInt("start", 0, n))
 	return s
 }
